@@ -3,9 +3,13 @@ package logging
 import (
 	"fmt"
 	"strings"
+	"sync"
 )
 
-var loggers []Logger
+var (
+	mu      sync.RWMutex
+	loggers []Logger
+)
 
 type Logger interface {
 	Log(e any)
@@ -17,11 +21,16 @@ type LogWrapper struct {
 }
 
 func InitLoggers(ls ...Logger) {
+	mu.Lock()
+	defer mu.Unlock()
 	loggers = ls
 }
 
 func Log(e any) {
-	for _, l := range loggers {
+	mu.RLock()
+	ls := loggers
+	mu.RUnlock()
+	for _, l := range ls {
 		l.Log(e)
 	}
 }
